@@ -45,7 +45,23 @@ index -> values.  The label is ``<op family>:<verified input predicate>:<symptom
 a predicate is only used when it was checked on the witness (e.g. "all
 differing groups are present in >= 2 partitions"), otherwise ``other``.
 
-Calibration (false alarms corrected; everything else is in PENDING / findings_proposed/C38.md)
+One mechanism = one label (``_canonicalise``)
+--------------------------------------------
+* an exception under a *verified* predicate is labelled with the exception type only (no raising frame); an
+  unmatched exception keeps ``Type@file:function``.
+* symptom variants of one verified predicate are merged statically (agg with first/last -> ``first-last``; the two
+  shapes of SeriesGroupBy.agg with median -> ``result-shape``; cov/corr with an empty partition -> ``exception``;
+  empty-frame / empty-result findings -> one label per op group and symptom class names|dtype|exception).
+* ablation: for the input features that produce a tail of symptom variants -- categorical key with
+  observed=False, a float key holding 0.0 and -0.0, NA keys with dropna=False, NA keys with dropna not disabled --
+  the failing case is re-run with the feature removed (observed=True; -0.0 replaced by 0.0; dropna not passed; the
+  NA-key rows removed from the frame).  Findings that name the feature or have no verified predicate, and that are
+  gone in the ablated run, are caused by it and are replaced by ONE label ``<op group>:<feature>`` (op groups:
+  agg-any, transform-like, nunique, median, cov-corr, value_counts, cum).  Findings that survive the ablation keep
+  their own label, and a failure that nothing explains keeps its full ``family:other:symptom`` label, so new defects
+  (and the mutants) still show as new.
+
+Calibration (false alarms corrected; everything else is in PENDING / known_findings.d/C38.json)
 -----------------------------------------------------------------------------------------
 * symptom classification: the shared ``frames.compare(ordered=False)`` sorts by values first, so a wrong value
   showed up as an "index" difference; this module sorts by the index (group keys) first and decides index vs
